@@ -87,7 +87,9 @@ def run_actor(ctx, prop):
                "answers": d["answers"], "abandoned": d["cancelled"]}
         if not d["ok"]:
             owner = next((p for k, p in CLASS if k in d["what"]), "C09")
-            if owner == prop or (prop == "C11" and hostile and owner == "C09") or (prop == "C10" and owner == "C09" and d.get("ok_without_cancel") is True):
+            # a schedule that is only non-linearizable because of what happened to an ABANDONED request is C10's, not C09's
+            abandon_only = owner == "C09" and d.get("ok_without_cancel") is True
+            if (owner == prop and not (prop == "C09" and abandon_only)) or (prop == "C11" and hostile and owner == "C09" and not abandon_only) or (prop == "C10" and abandon_only):
                 ctx.violations.append({"what": "%s: %s" % (prop, d["what"]), "input": inp})
             continue
         if dead and prop == "C11":
